@@ -108,13 +108,13 @@ class ManualSuite(Suite):
         return out
 
     def gen_cases(self, rng, tier):
-        n = 900 if tier == "quick" else 280000
-        nbig = 40 if tier == "quick" else 6000
+        n = 3000 if tier == "quick" else 280000
+        nbig = 100 if tier == "quick" else 6000
         cases = [self.gen_case(rng) for _ in range(n)]
         cases += [self.gen_case(rng, big=True) for _ in range(nbig)]
         if tier == "quick":
             ex = self.exhaustive_small(4, 8 ** 4)
-            ex = [ex[i] for i in sorted(rng.sample(range(len(ex)), 300))]
+            ex = [ex[i] for i in sorted(rng.sample(range(len(ex)), 600))]
         else:
             ex = self.exhaustive_small(4, 8 ** 4) + self.exhaustive_small(5, 8 ** 5)
         return cases + ex
@@ -420,7 +420,7 @@ class RunSuite(Suite):
         return {"id": 0, "lines": lines}
 
     def gen_cases(self, rng, tier):
-        n = 500 if tier == "quick" else 150000
+        n = 2000 if tier == "quick" else 150000
         return [self.gen_case(rng) for _ in range(n)]
 
     @staticmethod
@@ -438,6 +438,8 @@ class RunSuite(Suite):
         def bad(cat, txt):
             msgs.append("%s: %s" % (cat, txt))
 
+        if "go" not in case["lines"]:
+            return msgs
         go = [l for l in out if l.startswith("go")]
         if not go:
             if any(l.startswith("FATAL") for l in out):
@@ -603,7 +605,7 @@ class ThreadSuite(Suite):
         return {"id": 0, "lines": lines}
 
     def gen_cases(self, rng, tier):
-        n = 400 if tier == "quick" else 40000
+        n = 1200 if tier == "quick" else 100000
         return [self.gen_case(rng) for _ in range(n)]
 
     def oracle(self, case, out):
@@ -737,6 +739,8 @@ class StopRaceSuite(Suite):
 
     def oracle(self, case, out):
         msgs = []
+        if "go" not in case["lines"]:
+            return msgs
         go = [l for l in out if l.startswith("go")]
         if not go:
             return ["hang: no result (%s)" % " ".join(out[-1:])]
